@@ -2,6 +2,7 @@ import Pw.Model.Render
 import Pw.Spec.Errors
 import Pw.Spec.Cursor
 import Pw.Spec.Ext
+import Pw.Model.Conc
 /-
   Line-protocol driver: reads `case || implementation result` lines, runs the model on the
   case, compares with the implementation's result and evaluates the property oracles on the
@@ -74,10 +75,40 @@ def parseAccOps (s : String) : List Spec.Acc :=
 def renderAcc (rs : List Spec.AccRes) (rem : Bytes) : String :=
   ";".intercalate (rs.map (fun r => match r with | some v => "+" ++ hexOf v | none => "-") ++ ["rem=" ++ hexOf rem])
 
+/-- C16: run a forced schedule on the abstract shutdown protocol -/
+def runCloseModel (c : CaseIn) : String :=
+  let k := (get c.kv "closers").toNat?.getD 0
+  let cmds := if (get c.kv "cmds").isEmpty then [] else (get c.kv "cmds").splitOn ","
+  let acts := ((get c.kv "sched").splitOn ",").filter (· ≠ "")
+  let rec go (acts : List String) (s : Conc.St) (acc : List String) : List String :=
+    match acts with
+    | [] => acc.reverse
+    | a :: r =>
+      let idx := ((a.drop 2).toString.toNat?).getD 0
+      let kind := (a.take 2).toString
+      if kind = "cS" then
+        go r ((Conc.step (.closer idx) s).getD s) (a :: acc)
+      else if kind = "cR" then
+        let s1 := (Conc.step .helper s).getD s      -- the helper goroutine runs freely once the channel is closed
+        match Conc.step (.closer idx) s1 with
+        | some s2 => go r s2 ((a ++ ":ret") :: acc)
+        | none => go r s1 ((a ++ ":hang") :: acc)
+      else if kind = "wA" then
+        match Conc.step (.worker idx) s with
+        | some s2 =>
+          let res := if s2.workers[idx]? = some .running then "adm" else "ref"
+          go r s2 ((a ++ ":" ++ res) :: acc)
+        | none => go r s ((a ++ ":lost") :: acc)
+      else
+        go r ((Conc.step (.worker idx) s).getD s) (a :: acc)
+  ";".intercalate (go acts (Conc.init k cmds.length) [] ++ ["serve=nil", "viol=-"])
+
 /-- model side of the direct-call campaigns -/
 def runDirect (c : CaseIn) (kind : String) : ModelOut :=
   if kind = "params" then
     { out := "", ev := "n=" ++ toString (paramCount c.inp) ++ ";z=1", ending := "c", unsup := false, stuffed := false }
+  else if kind = "close" then
+    { out := "", ev := runCloseModel c, ending := "c", unsup := false, stuffed := false }
   else if kind = "accessor" then
     let (rs, rem) := Spec.modelRun c.inp (parseAccOps (get c.kv "ops"))
     { out := "", ev := renderAcc rs rem, ending := "c", unsup := false, stuffed := false }
@@ -527,6 +558,17 @@ def oracleMulti (c : CaseIn) (rkv : KV) : Option String :=
                      else some ("C12:per-connection-value-leaked:want=" ++ want ++ ":got=" ++ sp)
         | none => none
 
+/-- C16 oracle: violations observed directly on the real code under the forced schedule
+    (handler started after a Close returned, Close returned while a handler was running, a
+    Close that never returned, Serve not returning nil) -/
+def oracleClose (rkv : KV) : Option String :=
+  let evs := (get rkv "ev").splitOn ";"
+  match evs.find? (·.startsWith "viol=") with
+  | some v => if v = "viol=-" then
+      (if evs.contains "serve=nil" then none else some "C16:Serve-did-not-return-nil")
+    else some ("C16:" ++ v)
+  | none => some "C16:no-verdict"
+
 def oracle (c : CaseIn) (chunks : List Bytes) (rkv : KV) : Option String :=
   if c.camp = "errors" then oracleErrors c chunks
   else if c.camp = "params" then oracleParams c rkv
@@ -537,6 +579,7 @@ def oracle (c : CaseIn) (chunks : List Bytes) (rkv : KV) : Option String :=
   else if c.camp = "ext" then oracleExt c chunks rkv
   else if c.camp = "auth" then oracleAuth c chunks rkv
   else if c.camp = "multi" then oracleMulti c rkv
+  else if c.camp = "close" then oracleClose rkv
   else if c.camp = "startup" then (oracleStartup c chunks rkv).orElse fun _ => oracleExpect c chunks rkv
   else if c.camp = "lifecycle" then (oracleLifecycle c chunks rkv).orElse fun _ => oracleExpect c chunks rkv
   else oracleExpect c chunks rkv
